@@ -364,6 +364,17 @@ func (e *enc) unop(st *State, x *ssa.UnOp) {
 		v := e.fresh("recv", sortOf(ct.Elem()))
 		e.assumeAll(e.facts(v, ct.Elem(), true))
 		e.recvAssume(st, x.X, v, ct.Elem())
+		// "recv <chan> flag <name>": ghost boolean that becomes true once this receive has happened
+		if e.c != nil {
+			for _, cc := range e.c.calls["recv:"+e.valText(x.X)] {
+				if cc.kind == "flag" {
+					gc := e.ghostCellFor(cc.name, SVal{sort: "Bool"})
+					e.declare(gc.cell+"_0", "Bool")
+					e.assertOnce("(not " + gc.cell + "_0)")
+					st.cells[gc.cell] = "true"
+				}
+			}
+		}
 		if x.CommaOk {
 			ok := e.fresh("recvok", "Bool")
 			e.vals[x] = []string{v, ok}
